@@ -158,6 +158,18 @@ Definition reverse_after_modify (g : A -> A) (c : list A) : outcome (list A * li
 Definition enumerate_nonempty_test (c : list A) : bool := e_ne e_begin (e_end c).
 Definition reverse_nonempty_test (c : list A) : bool := negb (r_begin c =? r_end).
 
+(* ---- an OWNING adaptor is a value: it consists of the elements it owns (container_) and of nothing that refers
+   to another object or to its own address.  Copying or moving it (into a variable, out of a function, into a vector
+   or an optional) yields an adaptor owning equal elements; what happens to the source afterwards (destroyed,
+   assigned other elements) is invisible to the copy.  `relocate` is that copy/move; `src_after` is whatever the
+   source owns later on ---- *)
+Definition relocate (owned : list A) : list A := owned.
+Definition iterate_copy_and_source_enumerate (owned src_after : list A)
+  : outcome (list (nat * A)) * outcome (list (nat * A)) :=
+  let copy := relocate owned in (enumerate_rvalue copy, enumerate_rvalue src_after).
+Definition iterate_copy_and_source_reverse (owned src_after : list A) : outcome (list A) * outcome (list A) :=
+  let copy := relocate owned in (reverse_rvalue copy, reverse_rvalue src_after).
+
 End Iter.
 
 (* ---- TWO ranges alive at once.  The store holds two independent containers a and b; the outer loop runs over
